@@ -47,7 +47,7 @@ def ClassId.set (pr : Char → Bool) (c : ClassId) (cur : Val) (text : Str) : Se
   | .str k => (k.set pr text).map Val.s
   | .bool => (boolSet (match cur with | .b x => x | _ => false) text).map Val.b
   | .int k => (k.set text).map Val.i
-  | .list k => .ok (.l (k.set text))
+  | .list k => (k.set text).map Val.l
   | .sock pn pd => (socketTimeoutSet pn pd text).map Val.i
 
 /-- `node.setValue(v)`: the stored value or the rejection -/
@@ -56,7 +56,7 @@ def ClassId.setValue (c : ClassId) (v : Val) : SetRes Val :=
   | .str k, .s x => .ok (.s (k.setValue x))
   | .bool, .b x => .ok (.b x)
   | .int k, .i x => (k.setValue x).map Val.i
-  | .list _, .l x => .ok (.l x)
+  | .list k, .l x => (k.setValue x).map Val.l
   | .sock pn pd, .i x => (socketTimeoutSetValue pn pd x).map Val.i
   | _, _ => .unm
 
